@@ -45,8 +45,17 @@ def observables(queries):
         'morgan_hash_smiles': lambda m: sorted(m.morgan_hash_smiles().items()),
         'matches': matches,
         'pack': pack,
+        'pack_z': lambda m: _guard(lambda: m.pack().hex()),
+        'bytes': lambda m: _guard(lambda: bytes(m).hex()),
         'hash_eq': lambda m: [n for n, a in m.atoms() if a.stereo is not None] + [sorted((n, k)) for n, k, b in m.bonds() if b.stereo is not None],
     }
+
+
+def _guard(f):
+    try:
+        return f()
+    except Exception as e:  # format limits
+        return 'error:' + type(e).__name__
 
 
 def evaluate(m, obs, order=None):
@@ -116,6 +125,122 @@ OPS = {
 }
 
 
+# ------------------------------------------------------------------------------------------------
+# read - perturb - read histories.  Every observed value is a function of some inputs of the molecule: the structure
+# (strings, orders, rings, fingerprints, matches), atom attributes, and for pack bytes also the 2D coordinates.  Each
+# perturbation below goes through a PUBLIC way of changing one of those inputs (plain setters where the documentation
+# allows them, `with mol:` where it asks for it, the editing API, layout helpers).  The history is
+#     read everything, perturb, read everything, perturb, read everything, ...
+# on ONE object, and after every perturbation the values read from the object must equal the values read from a fresh
+# copy of it; the end state must equal an object that went through the same perturbations without any read in between
+# (nothing cached), and that value is also compared across processes / hash seeds by the parent.
+# ------------------------------------------------------------------------------------------------
+
+def _first(m):
+    return next(iter(m))
+
+
+def _p_move_x(m):
+    a = m.atom(_first(m))
+    a.x = a.x + 1.25
+
+
+def _p_move_y(m):
+    a = m.atom(max(m))
+    a.y = a.y - .5
+
+
+def _p_set_xy(m):
+    for i, (n, a) in enumerate(m.atoms()):
+        a.xy = (i * .825, (i % 2) * .5)
+
+
+def _p_clean2d(m):
+    # clean2d() draws its start order from the global `random` module (documented random layout): the same stream for every history
+    random.seed(20240519)
+    m.clean2d()
+
+
+def _p_fix_positions(m):
+    from chython import ReactionContainer
+    ReactionContainer([m], [m.copy()]).fix_positions()
+
+
+def _p_name(m):
+    m.name = 'renamed'
+
+
+def _p_meta(m):
+    m.meta['perturbed'] = 'yes'
+
+
+def _p_isotope(m):
+    with m:
+        a = m.atom(_first(m))
+        a.isotope = max(a.isotopes_distribution)
+
+
+def _p_charge(m):
+    with m:
+        n = next((n for n, a in m.atoms() if a.atomic_symbol in ('N', 'O', 'P', 'S') and a.charge == 0), _first(m))
+        a = m.atom(n)
+        a.charge = a.charge + 1
+
+
+def _p_radical(m):
+    with m:
+        a = m.atom(max(m))
+        a.is_radical = not a.is_radical
+
+
+def _p_delete_atom(m):
+    m.delete_atom(max(m))
+
+
+def _p_remap(m):
+    m.remap({n: n + 100 for n in m})
+
+
+PERTURB = [('move_x', _p_move_x), ('move_y', _p_move_y), ('set_xy', _p_set_xy), ('clean2d', _p_clean2d),
+           ('reaction_fix_positions', _p_fix_positions), ('name', _p_name), ('meta', _p_meta),
+           ('txn_isotope', _p_isotope), ('txn_charge', _p_charge), ('txn_radical', _p_radical),
+           ('add_atom', _add_atom), ('add_ring_bond', _add_ring_bond), ('delete_bond', _del_first_bond),
+           ('delete_atom', _p_delete_atom), ('remap', _p_remap), ('move_x_again', _p_move_x)]
+
+
+def perturbed_unread(s, smiles):
+    """the molecule after every perturbation that applies, with no read in between; and which ones applied"""
+    m = smiles(s)
+    applied = []
+    for name, p in PERTURB:
+        try:
+            p(m)
+            applied.append(name)
+        except Exception:
+            pass
+    return m, applied
+
+
+def perturbed_history(s, smiles, obs, keys, rec):
+    """read - perturb - read on one object, against a fresh copy after every step"""
+    m = smiles(s)
+    evaluate(m, obs)
+    applied = []
+    a = None
+    for name, p in PERTURB:
+        try:
+            p(m)
+        except Exception:
+            continue
+        applied.append(name)
+        a = evaluate(m, obs)
+        b = evaluate(m.copy(), obs)
+        rec['copy_differs'] += [f'after-{name}:{k}' for k in keys if a[k] != b[k]]
+        again = evaluate(m, obs)
+        rec['cached_differs'] += [f'{k}:again-after-{name}' for k in keys if again[k] != a[k]]
+    return a, applied
+
+
 def main():
     from harness.gen import pyx2py
     pyx2py.install()
@@ -131,8 +256,9 @@ def main():
                                           for p in progs]}))
     obs = observables(queries)
     keys = list(obs)
-    for s in spec['smiles']:
+    for i, s in enumerate(spec['smiles']):
         rec = {'smiles': s}
+        hist = ([], [])
         try:
             base = evaluate(smiles(s), obs)
             rec['out'] = base
@@ -140,7 +266,23 @@ def main():
             c = smiles(s)
             c.canonicalize()
             rec['out']['standardized'] = str(c)
+            perturb = spec.get('perturb_mod') and i % spec['perturb_mod'][0] == spec['perturb_mod'][1]
+            if perturb:
+                m2, applied2 = perturbed_unread(s, smiles)
+                final = evaluate(m2, obs)
+                rec['out']['perturbations_applied'] = applied2
+                for k in keys:
+                    rec['out']['perturbed:' + k] = final[k]
+                if spec.get('variations'):
+                    rec['cached_differs'], rec['copy_differs'] = [], []
+                    a, applied = perturbed_history(s, smiles, obs, keys, rec)
+                    if applied != applied2:
+                        rec['cached_differs'].append('perturbations_applied:read-between-perturbations-changes-which-edits-are-accepted')
+                    elif a is not None:
+                        rec['cached_differs'] += [f'{k}:after-perturbations-read-between-vs-never-read' for k in keys if a[k] != final[k]]
+                    hist = (rec['cached_differs'], rec['copy_differs'])
             if spec.get('variations'):
+                rec['cached_differs'], rec['copy_differs'] = list(hist[0]), list(hist[1])
                 rng = random.Random(spec.get('rng', 0) ^ hash(len(s)))
                 for k in keys:  # k first on a fresh object
                     v = evaluate(smiles(s), obs, [k])[k]
